@@ -201,6 +201,20 @@ def run(ck, prog, tier, load):
     ck.ob("C13-c.negotiated-value-used", "CompressResponse::poll", ok, er[0][0] if er else None, er[0][1] if er else None, "Encoder::response receives the negotiated coding (or Identity when the content type is excluded)")
     negotiation_rules(ck, prog)
 
+    # ---- (a) the whole chunk goes into the codec: write_all, never the partial io::Write::write whose count is dropped ----
+    n_all = 0
+    for b in sorted(prog.bodies.values(), key=lambda x: (x.file, x.lo, x.path)):
+        if b.crate != "actix_http" or not rx(r"encoding::(encoder::ContentEncoder|decoder::ContentDecoder)::(write|feed_data)$").search(b.npath):
+            continue
+        for bb, t in b.calls(r"io::Write>::write(_all)?$|io::Write::write(_all)?$|io::Write for .*>::write(_all)?$"):
+            whole = cname(t).endswith("write_all")
+            n_all += whole
+            if not whole:
+                ck.ob("C13-a.whole-chunk-into-codec", "%s|bb-write" % "::".join(b.npath.split("::")[-2:]), False, b, bb,
+                      "a body chunk is handed to the (de)compressor with write(), which may accept only part of it, and the accepted count is not looked at: the rest of the chunk is lost")
+    ck.ob("C13-a.whole-chunk-into-codec", "ContentEncoder::write / ContentDecoder::feed_data", n_all >= 1, None, None, "every codec arm hands the chunk over with write_all (%d sites)" % n_all)
+    ck.anchor("C13-a", n_all, 2 if prog.overridden else 4, "write_all of the chunk into a codec (encoder and decoder arms)")
+
 
 def negotiation_rules(ck, prog):
     """(e) structure of AcceptEncoding::negotiate: what is chosen comes from an item the client accepted"""
